@@ -4,7 +4,7 @@
    x/net's readMetaFrame/checkPseudos, http2Server.operateHeaders, the StreamError and
    ConnectionError paths of HandleStreams, RST_STREAM / empty DATA / Write + WriteStatus, and
    loopy's stream-level flow control as far as it delays the END_STREAM of a finished stream. "Never
-   panics" is monitored by the driver, not proved. *)
+   panics" is monitored by the driver (every panic is event 66, clauses 11 / 12), not proved. *)
 From Coq Require Import List ZArith Bool.
 From VLib Require Import Codec Machine.
 From VModel Require Timeout MDWire.
@@ -57,10 +57,10 @@ Print Assumptions C12_refused.
    returns (WriteStatus) leaves the stream in the active set: only the response HEADERS go out,
    the count is unchanged - so C12_refused applies to the resulting state ... *)
 Theorem C12_finished_stream_counts_until_flushed : forall cfg st sid n s,
-  s_mode st = 0 -> c_tiny cfg = false -> find_stream sid (s_active st) = Some s -> 0 <= s < 2 ->
-  window cfg st sid < 5 + n ->
+  s_mode st = 0 -> c_tiny cfg = false -> find_stream sid (s_active st) = Some s -> is_done s = false ->
+  detached s = false -> window cfg st sid < 5 + n ->
   let r := exec_op cfg st (OWriteFinish sid n) in
-  snd r = ev_hdr sid 1200 (-1) /\ s_active (fst r) = set_stream sid (3 + s) (s_active st) /\
+  snd r = ev_hdr sid 1200 (-1) /\ s_active (fst r) = set_stream sid (fin_blocked s) (s_active st) /\
   lenZ (s_active (fst r)) = lenZ (s_active st) /\ s_handled (fst r) = s_handled st /\
   s_mode (fst r) = 0 /\ s_max (fst r) = s_max st /\ window cfg (fst r) sid = window cfg st sid - (5 + n).
 Proof. exact blocked_finish_keeps_stream. Qed.
@@ -70,9 +70,9 @@ Print Assumptions C12_finished_stream_counts_until_flushed.
    RST_STREAM(NO_ERROR) if the client had not half-closed) are written and the stream leaves the
    active set; a smaller WINDOW_UPDATE changes nothing but the credit. *)
 Theorem C12_window_flushes_blocked : forall cfg st sid inc s,
-  s_mode st = 0 -> find_stream sid (s_active st) = Some s -> 3 <= s -> 0 <= window cfg st sid + inc ->
+  s_mode st = 0 -> find_stream sid (s_active st) = Some s -> is_blocked s = true -> 0 <= window cfg st sid + inc ->
   exec_op cfg st (OWindow sid inc) =
-  (with_active st (del_stream sid (s_active st)), ev_hdr sid (-1) 0 ++ (if s =? 3 then ev_rst sid E_NO else [])).
+  (with_active st (del_stream sid (s_active st)), ev_hdr sid (-1) 0 ++ (if rst_after s then ev_rst sid E_NO else [])).
 Proof. exact window_flushes_blocked. Qed.
 Print Assumptions C12_window_flushes_blocked.
 Theorem C12_window_too_small : forall cfg st sid inc s,
@@ -117,7 +117,34 @@ Proof.
 Qed.
 Print Assumptions C12_no_duplicate_pseudo_header.
 
-(* The predicate evaluated on implementation traces (clauses 1-8 and 10) holds on every trace of
+(* "the server never panics": monitored on the real transport (every panic is event 66 of the op
+   during which it happened; clause 12: none ever, clause 11: none for the frame class below),
+   and the model never produces that event, whatever the state and the op. *)
+Theorem C12_model_never_panics : forall cfg st o, has_event 66 (snd (step cfg st o)) 8 = false.
+Proof. exact model_never_panics. Qed.
+Print Assumptions C12_model_never_panics.
+
+(* The frame class of the defect repaired by 1b83f43 (found by this engine: recvBuffer.put freed
+   the nil buffer of an error-only message, a nil-pointer panic of the reader goroutine that a
+   client could trigger at will): a DATA frame with END_STREAM for a stream that has finished
+   (streamDone) but is still in t.activeStreams and has already been sent END_STREAM (stream
+   states 6-8: its response waits for flow-control window, or loopy was made to forget it by a
+   truncated HEADERS frame).  handleData guards only streamReadDone; the second io.EOF is dropped
+   by recvBuffer.put: no state change, nothing written, no panic. *)
+Theorem C12_second_end_stream_dropped : forall st sid s,
+  find_stream sid (s_active st) = Some s -> 6 <= s <= 8 -> data_op st sid true = (st, []).
+Proof. exact second_end_stream_dropped. Qed.
+Print Assumptions C12_second_end_stream_dropped.
+(* witness, replayed on the real server by driver cases 18 / 19: INITIAL_WINDOW_SIZE = 0, HEADERS(1),
+   DATA(1, END_STREAM), the handler writes 15 bytes and returns, DATA(1, END_STREAM) again: dropped;
+   stream 3 is refused because stream 1 still counts *)
+Theorem C12_double_end_stream_witness :
+  run [1; 4096; 0; 1] [good_req 1; [4; 1; 1]; [9; 1; 10]; [4; 1; 1]; good_req 3] =
+  Some [[1; 1; 1; 9; 1; 0; 0; 1; 1; 2; 47; 115; -1]; [1; 1; 1]; [1; 1; 1; 1; 1; 1200; -1]; [1; 1; 1]; [1; 1; 3; 3; 3; 7; 0]].
+Proof. exact double_end_stream_witness. Qed.
+Print Assumptions C12_double_end_stream_witness.
+
+(* The predicate evaluated on implementation traces (clauses 1-8 and 10-12) holds on every trace of
    the model, for every decodable configuration and operation list. *)
 Theorem C12_holds_on_every_model_trace : forall cfg ops, wf cfg ops = true ->
   exists obs, run cfg ops = Some obs /\ holds_b cfg ops obs = true.
